@@ -73,7 +73,9 @@ def centre_of_gravity(img, threshold=0, min_threshold=0, **kwargs):
             img = numpy.where(img > thres, img - thres, 0)
         else:
             # one threshold per image, whatever the number of leading axes
-            thres = numpy.maximum(threshold*img.max(-1).max(-1), min_threshold)
+            # (as floats: an integer threshold on an unsigned-integer stack would keep
+            # the subtraction below in the unsigned type, where it wraps around)
+            thres = numpy.maximum(threshold*img.max(-1).max(-1), min_threshold).astype(float)
             img_temp = img - thres[..., None, None]
             img = numpy.where(img_temp < 0, 0, img)
 
